@@ -46,7 +46,16 @@
        with applied term = term satisfies agrees - no restart of that device and no switch of the target to
        "persistent" inside the run (a persistent target is never re-pushed: stated behaviour).  No premise on
        transactions in flight is needed: between two complete invocations the agreement holds even then.
-   Instance (Model/P2Pure.v): C04_overlap_apply_refuted, C04_resync_order_nonwf_refuted below the Section.
+   Instance (Model/P2Pure.v): C04_lagging_delete_refuted, C04_overlap_apply_refuted, C04_resync_order_nonwf_refuted below
+   the Section.  C04_lagging_delete_refuted is a violation of the property text on the faithful model (candidate genuine
+   defect, Go map order dependent): /a/b = 1 applied; device unreachable; "delete /a" and "/a/c = 3" committed; device
+   back, both applied with the recording loop of reconcileApply visiting the tombstone of /a before the cascaded
+   tombstone of /a/c (o_order = 1): applyChangeToConfig drops deleted ancestors of EVERY value it sets, tombstones
+   included, so the tombstone of /a is removed again and /a/b stays live in Applied.Values although the device deleted
+   it (apply_sound_at fails in that order: Proofs/P2_ConvergeEx.v apply_sound_lagging_delete_refuted).  All
+   transactions APPLIED, configuration SYNCHRONIZED: device = committed configuration <> applied values; after the
+   next connection replacement the complete re-push puts /a/b back on the device: device <> stored configuration at
+   quiescence.  In the order 0 everything agrees.
 
    What remains partial.
    (1) Invocations cut between the device request and the entry write leave the device AHEAD of the record (complete
@@ -61,9 +70,11 @@
    (2) The pure-layer obligations are hypotheses.  For the instance they are evaluated by vm_compute on concrete
        values (Proofs/P2_ConvergeEx.v: cascading delete, update with inlined values, re-creation beneath an applied
        tombstone, delete with a lagging committed view, status updates with tombstones, re-push in both group orders,
-       idempotence) and on the worlds of a reachable scenario; no general proof over P2Pure.v (sorting / pruning
-       lemmas missing).  They FAIL for a change that deletes a path and updates a leaf beneath it
-       (C04_overlap_apply_refuted, device-side facet of the open finding F-14-C03).
+       idempotence; the apply examples in every Go map order of the recording) and on the worlds of a reachable
+       scenario; no general proof over P2Pure.v (sorting / pruning lemmas missing).  They FAIL (i) for a delete applied
+       with a lagging committed view in one of the two orders of the recording (C04_lagging_delete_refuted, above) and
+       (ii) for a change that deletes a path and updates a leaf beneath it (C04_overlap_apply_refuted, device-side
+       facet of the open finding F-14-C03).
    (3) "restricted to the transactions whose apply did not fail" is C04_applied_values_change_only (protocol level);
        that a refused change leaves no trace in the values is restore_sound_at.
    (4) "the stored configuration" of the text is the COMMITTED one; the theorems compare the device with the APPLIED
@@ -83,7 +94,7 @@ Section C04.
   Context {V Ch Req D : Type}.
   Context (candidate : V -> Ch -> V) (candidate_rb : V -> Ch -> V) (rollback_of : V -> Ch -> Ch)
           (overlay : V -> V -> V) (commit_merge : N -> N -> V -> V -> Ch -> V)
-          (payload : N -> V -> Ch -> option Req) (record_applied : N -> V -> V -> V -> Ch -> V)
+          (payload : N -> V -> Ch -> option Req) (record_applied : N -> N -> V -> V -> V -> Ch -> V)
           (touched : N -> V -> Ch -> V) (restore : V -> V -> V)
           (resync_payload : V -> list (option Req)) (doc_ok : V -> bool)
           (dev_apply : D -> Req -> D) (stamp : N -> Ch -> Ch) (v_empty : V) (d_empty : D) (ch_empty : Ch).
@@ -176,20 +187,20 @@ Section C04.
   (** (c) apply, re-push, restart *)
   Theorem C04_apply_keeps_agreement_partial : forall (o : oracle) (w : world) t i m term r (k : nat),
     (forall (C : config) (P : prop), cfgs w !! t = Some C -> props w !! (t, i) = Some P ->
-       apply_sound_at i (c_ainline C) (c_avalues C) (view C) (rb_change P) r (dstate_of w t)) ->
+       apply_sound_at (o_order o) i (c_ainline C) (c_avalues C) (view C) (rb_change P) r (dstate_of w t)) ->
     sent_by_apply w o t i m term r COk -> (3 <= k)%nat -> agrees w t ->
     let w' := step w (LRec (CtlProp (t, i)) k o) in
     agrees w' t /\ dstate_of w' t = dev_apply (dstate_of w t) r /\
     exists (C : config) (P : prop) (C' : config), cfgs w !! t = Some C /\ props w !! (t, i) = Some P /\
       cfgs w' !! t = Some C' /\ c_applied C' = i /\ c_applied C < i /\
-      aview C' = loaded (record_applied i (c_avalues C) (aview C) (view C) (rb_change P)) /\
+      aview C' = loaded (record_applied (o_order o) i (c_avalues C) (aview C) (view C) (rb_change P)) /\
       c_state C' = c_state C /\ c_aterm C' = c_aterm C /\ c_term C' = c_term C.
   Proof. exact (apply_keeps_agreement candidate candidate_rb rollback_of overlay commit_merge payload record_applied
                   touched restore resync_payload doc_ok dev_apply stamp v_empty d_empty ch_empty abs_dev abs_app). Qed.
 
   Theorem C04_cut_apply_retry_partial : forall (o o' : oracle) (w : world) t i m term r (k' : nat),
     (forall (C : config) (P : prop), cfgs w !! t = Some C -> props w !! (t, i) = Some P ->
-       apply_sound_at i (c_ainline C) (c_avalues C) (view C) (rb_change P) r (dstate_of w t)) ->
+       apply_sound_at (o_order o') i (c_ainline C) (c_avalues C) (view C) (rb_change P) r (dstate_of w t)) ->
     apply_idem_at (dstate_of w t) r -> agrees w t -> sent_by_apply w o t i m term r COk ->
     let w1 := step w (LRec (CtlProp (t, i)) 1 o) in
     dstate_of w1 t = dev_apply (dstate_of w t) r /\ cfgs w1 = cfgs w /\
@@ -256,13 +267,28 @@ Section C04.
 End C04.
 
 (** the executable instance: where the obligations fail *)
+Theorem C04_lagging_delete_refuted :
+  lag_summary (x_run (l_lag_b (x_oracle COk))) =
+    ([(1, TApplied); (3, TApplied); (2, TApplied)],
+     [(3, 3, CSynchronized, 2, 2, [(B "/a/c", B "3")], [(B "/a/c", B "3")])], [[(B "/a/c", B "3")]]) /\
+  lag_summary (x_run (l_lag_b (x_oracle1 COk))) =
+    ([(1, TApplied); (3, TApplied); (2, TApplied)],
+     [(3, 3, CSynchronized, 2, 2, [(B "/a/b", B "1"); (B "/a/c", B "3")], [(B "/a/c", B "3")])], [[(B "/a/c", B "3")]]) /\
+  ~ @agrees cmap cmap req dstate overlay nil _ abs_dev_i abs_app_i (x_run (l_lag_b (x_oracle1 COk))) 1 /\
+  lag_summary (x_run (l_lag_c (x_oracle1 COk))) =
+    ([(1, TApplied); (3, TApplied); (2, TApplied)],
+     [(3, 3, CSynchronized, 3, 3, [(B "/a/b", B "1"); (B "/a/c", B "3")], [(B "/a/c", B "3")])],
+     [[(B "/a/b", B "1"); (B "/a/c", B "3")]]).
+Proof. exact lagging_delete_refuted. Qed.
+
 Theorem C04_overlap_apply_refuted :
   wf_change ch_overlap = false /\
   payload 2 [] ch_overlap = Some (mkReq [B "/a"] []) /\ payload 2 [] (rev ch_overlap) = Some (mkReq [B "/a"] []) /\
   abs_dev_i [] = abs_app_i (overlay [] []) /\
   abs_dev_i (dev_apply [] (mkReq [B "/a"] [])) = [] /\
-  abs_app_i (loaded overlay nil (record_applied 2 [] (overlay [] []) [] ch_overlap)) = [(B "/a/b", B "1")] /\
-  ~ apply_sound_at overlay payload record_applied dev_apply nil abs_dev_i abs_app_i 2 [] [] [] ch_overlap (mkReq [B "/a"] []) [].
+  map (fun ord => abs_app_i (loaded overlay nil (record_applied ord 2 [] (overlay [] []) [] ch_overlap))) [0; 1; 2; 3] =
+    [[(B "/a/b", B "1")]; []; []; [(B "/a/b", B "1")]] /\
+  ~ apply_sound_at overlay payload record_applied dev_apply nil abs_dev_i abs_app_i 0 2 [] [] [] ch_overlap (mkReq [B "/a"] []) [].
 Proof. exact apply_sound_overlap_refuted. Qed.
 
 Theorem C04_resync_order_nonwf_refuted : exists r1 r2,
@@ -289,5 +315,6 @@ Print Assumptions C04_restart_breaks_only_until_resync.
 Print Assumptions C04_pure_ok_global.
 Print Assumptions C04_converged_inv.
 Print Assumptions C04_converged_partial.
+Print Assumptions C04_lagging_delete_refuted.
 Print Assumptions C04_overlap_apply_refuted.
 Print Assumptions C04_resync_order_nonwf_refuted.
